@@ -328,7 +328,7 @@ def run(tier: str) -> int:
     elif tl["result"] != "unsat":
         rep.harness_errors.append(f"E2 get_code tail obligation: {tl['result']}")
     progs = [(f"fixed:{k}", v) for k, v in FIXED.items()] + [("empty", ""), ("comment_only", "# nothing\n")]
-    n = 200 if tier == "thorough" else 30
+    n = 500 if tier == "thorough" else 30
     for sp in base.gen_specs(n, None, tier, salt=53):
         progs.append((sp["name"], sp["sources"]))
     for name, srcs in base.repo_sources():
